@@ -232,6 +232,7 @@ func (n *Node) Events(out []ev.Event) []ev.Event {
 type CBOROpts struct {
 	Width int  // 0: minimal; 1,2,4,8: every argument that fits uses this many bytes
 	Indef bool // containers of indefinite length
+	Mixed bool // definite or indefinite length chosen per container (fork), Indef ignored
 	IntW  int  // integers: -1 = chosen per integer (fork), 0..4 = immediate,1,2,4,8 bytes for every integer of the document
 }
 
@@ -296,7 +297,11 @@ func EncodeCBOR(h *rt.H, n *Node, o CBOROpts, out []byte) []byte {
 		out = cborHead(out, 2, uint64(len(n.Str)), o.Width)
 		out = append(out, n.Str...)
 	case KArr:
-		if o.Indef {
+		indef := o.Indef
+		if o.Mixed {
+			indef = h.Choose("cindef", 0, 1) == 1
+		}
+		if indef {
 			out = append(out, 0x9f)
 		} else {
 			out = cborHead(out, 4, uint64(len(n.Kids)), o.Width)
@@ -304,11 +309,15 @@ func EncodeCBOR(h *rt.H, n *Node, o CBOROpts, out []byte) []byte {
 		for _, k := range n.Kids {
 			out = EncodeCBOR(h, k, o, out)
 		}
-		if o.Indef {
+		if indef {
 			out = append(out, 0xff)
 		}
 	case KObj:
-		if o.Indef {
+		indef := o.Indef
+		if o.Mixed {
+			indef = h.Choose("cindef", 0, 1) == 1
+		}
+		if indef {
 			out = append(out, 0xbf)
 		} else {
 			out = cborHead(out, 5, uint64(len(n.Kids)), o.Width)
@@ -318,7 +327,7 @@ func EncodeCBOR(h *rt.H, n *Node, o CBOROpts, out []byte) []byte {
 			out = append(out, n.Keys[i]...)
 			out = EncodeCBOR(h, k, o, out)
 		}
-		if o.Indef {
+		if indef {
 			out = append(out, 0xff)
 		}
 	}
@@ -453,7 +462,7 @@ func JSONText(h *rt.H, n *Node, o JSONOpts, out []byte) []byte {
 
 // UBJOpts: representation choices draft 12 allows.
 type UBJOpts struct {
-	Container int  // 0 plain ([...]), 1 counted ([#n ...), 2 typed+counted where all elements share a marker
+	Container int  // 0 plain ([...]), 1 counted ([#n ...), 2 typed+counted where all elements share a marker, -1 chosen per container (fork)
 	LenMarker byte // marker used for lengths and counts: i U I l L
 	Noop      bool // a no-op before every element of a plain container
 	IntMarker byte // marker for every integer of the document; 0 = chosen per integer (fork)
@@ -551,6 +560,9 @@ func ubjPayload(h *rt.H, n *Node, m byte, o UBJOpts, out []byte) []byte {
 func ubjContainer(h *rt.H, n *Node, o UBJOpts, out []byte) []byte {
 	obj := n.K == KObj
 	mode := o.Container
+	if mode < 0 {
+		mode = h.Choose("ucont", 0, 2)
+	}
 	var markers []byte
 	for _, k := range n.Kids {
 		markers = append(markers, ubjMarker(h, k, o))
